@@ -41,6 +41,8 @@ func main() {
 			r := solve(ob.Query, sanitize(ob.Name), 30000, true, true)
 			fmt.Printf("%-45s %s %s %.2fs %v\n", ob.Name, r.Status, r.Solver, r.Secs, r.Answers)
 		}
+	case "names":
+		os.Exit(cmdNames())
 	case "units":
 		w, err := loadWorld(repoDir(), nil)
 		if err != nil {
@@ -116,6 +118,9 @@ func cmdVerify(args []string) {
 			}
 			fmt.Printf("   WARNING unreachable return sites: %v of %d %v\n", r.DeadReturns, len(r.Ex.returnReach), ps)
 		}
+		if len(r.DeadBack) > 0 {
+			fmt.Printf("   WARNING unreachable loop back edges (loop body obligations vacuous): %v\n", r.DeadBack)
+		}
 		for _, ob := range r.Obls {
 			if !ob.ok() || *verbose {
 				st := "?"
@@ -161,6 +166,9 @@ func cmdVerify(args []string) {
 				} else {
 					b.WriteString("(assert " + it.Assume + ")\n")
 				}
+			}
+			for i, br := range r.Ex.backReach {
+				b.WriteString("; BACKEDGE " + r.Ex.backPos[i] + "\n;   " + br + "\n")
 			}
 			os.WriteFile(*dump+"/"+sanitize(u.Name)+".vc", []byte(b.String()), 0o644)
 		}
